@@ -1,7 +1,1009 @@
 //! utilobs — coverage-gap closing harness (see the worker task); implementation side.
+//!
+//! A. `DenseNatMap`: len / Default / Index / IndexMut / owned IntoIterator / iter / values / From<Vec>
+//!    (model `dnx-*`, oracles `o-dnx-view`, `o-dnx-set`).
+//! B. `RewritePlan::new`, `Debug`, `From<DenseNatMap>` / `From<&DenseNatMap>` (model `plan-*`, oracles `o-plan-*`).
+//! C. `HashableHashSet` / `HashableHashMap`: new / with_capacity / default, hash-based `Ord`, `&set` iteration,
+//!    serde round trip (model `hh-*`, `json-*`, oracles `o-hh-*`, direct laws).
+//! D. defaults: `VectorClock::new`, `Timers::default`, tester `Default`s, `RandomChoices::default` (direct laws;
+//!    `vc-*` commands of the C20 model for the empty clock).
+use serde::de::DeserializeOwned;
+use serde::Serialize;
 use srh::out::*;
+use srh::rec::{record, Tok};
+use srh::rng::Rng;
+use srh::sem_util::{drive, gen_history, lin_summary, sc_summary, Wire};
+use srh::sx;
+use stateright::actor::{Id, RandomChoices, Timers};
+use stateright::semantics::register::Register;
+use stateright::semantics::write_once_register::WORegister;
+use stateright::semantics::{ConsistencyTester, LinearizabilityTester, SequentialConsistencyTester};
+use stateright::util::{DenseNatMap, HashableHashMap, HashableHashSet, VectorClock};
+use stateright::RewritePlan;
+use std::cmp::Ordering;
+use std::collections::hash_map::DefaultHasher;
+use std::collections::{BTreeMap, BTreeSet, HashMap, VecDeque};
+use std::fmt::Debug;
+use std::hash::{Hash, Hasher};
+use std::panic::{catch_unwind, AssertUnwindSafe};
+
+fn ord(o: Option<Ordering>) -> &'static str {
+    match o {
+        None => "none",
+        Some(Ordering::Less) => "lt",
+        Some(Ordering::Equal) => "eq",
+        Some(Ordering::Greater) => "gt",
+    }
+}
+fn opt_u32(x: &Option<u32>) -> String {
+    sx::opt(x, |v| v.to_string())
+}
+fn opts(xs: &[Option<u32>]) -> String {
+    sx::list(xs.iter().map(opt_u32))
+}
+/// `panic` or the value
+fn idx_s<T: ToString>(x: &Option<T>) -> String {
+    match x {
+        None => "panic".into(),
+        Some(v) => v.to_string(),
+    }
+}
+fn pairs_s(ps: &[(usize, u32)]) -> String {
+    sx::list(ps.iter().map(|(k, v)| format!("({} {})", k, v)))
+}
+
+// ------------------------------------------------------------------------------------------------
+// A. DenseNatMap
+// ------------------------------------------------------------------------------------------------
+/// a second key type: the map's code is generic in `K`
+#[derive(Clone, Copy, Debug, PartialEq, Eq, Hash)]
+struct Slot(usize);
+impl From<usize> for Slot {
+    fn from(u: usize) -> Self {
+        Slot(u)
+    }
+}
+impl From<Slot> for usize {
+    fn from(s: Slot) -> usize {
+        s.0
+    }
+}
+
+const BUILDS: usize = 5;
+fn build<K>(vs: &[u32], how: usize) -> DenseNatMap<K, u32>
+where
+    K: From<usize>,
+    usize: From<K>,
+{
+    match how {
+        0 => DenseNatMap::from(vs.to_vec()),
+        1 => vs.iter().cloned().collect(),
+        2 => {
+            let mut m = DenseNatMap::new();
+            for (k, v) in vs.iter().enumerate() {
+                m.insert(K::from(k), *v);
+            }
+            m
+        }
+        3 => {
+            let mut m = DenseNatMap::default();
+            for (k, v) in vs.iter().enumerate() {
+                m.insert(K::from(k), *v);
+            }
+            m
+        }
+        _ => vs.iter().enumerate().rev().map(|(k, v)| (K::from(k), *v)).collect(),
+    }
+}
+
+fn gets_of<K>(m: &DenseNatMap<K, u32>, n: usize) -> Vec<Option<u32>>
+where
+    K: From<usize>,
+    usize: From<K>,
+{
+    (0..n).map(|k| m.get(K::from(k)).copied()).collect()
+}
+
+fn dnm_view<K>(out: &mut Out, vs: &[u32], how: usize, tag: &str)
+where
+    K: From<usize> + Copy + Debug + PartialEq,
+    usize: From<K>,
+{
+    let m: DenseNatMap<K, u32> = build(vs, how);
+    let n = m.len();
+    let gets = gets_of(&m, n + 3);
+    let idxs: Vec<Option<u32>> = (0..n + 3).map(|k| catch_unwind(AssertUnwindSafe(|| m[K::from(k)])).ok()).collect();
+    let into: Vec<(usize, u32)> = m.clone().into_iter().map(|(k, v)| (usize::from(k), v)).collect();
+    let it: Vec<(usize, u32)> = m.iter().map(|(k, v)| (usize::from(k), *v)).collect();
+    let vals: Vec<u32> = m.values().copied().collect();
+    let svs = sx::nums(vs);
+    out.m(&format!("dnx-view {}", svs), &format!("{} {} {} {}", n, pairs_s(&into), pairs_s(&it), sx::nums(&vals)));
+    out.o(&format!(
+        "o-dnx-view {} {} {} {} {} {}",
+        n,
+        opts(&gets),
+        sx::list(idxs.iter().map(idx_s)),
+        pairs_s(&into),
+        pairs_s(&it),
+        sx::nums(&vals)
+    ));
+    // all constructions of the same contents are equal
+    let m0: DenseNatMap<K, u32> = DenseNatMap::from(vs.to_vec());
+    if m != m0 {
+        out.v("dnm-build", &format!("construction {} of {} differs from From<Vec>: {:?} vs {:?}", how, svs, m, m0));
+    }
+    out.stat(&format!("dnm-view-{}-build{}", tag, how));
+    out.stat(&format!("dnm-len-{}", n.min(6)));
+    out.distinct(&(10u8, vs.to_vec()));
+}
+
+#[derive(Clone, Debug)]
+enum Op {
+    Ins(usize, u32),
+    Set(usize, u32),
+    Idx(usize),
+    Get(usize),
+    Len,
+}
+fn op_s(o: &Op) -> String {
+    match o {
+        Op::Ins(k, v) => format!("(ins {} {})", k, v),
+        Op::Set(k, v) => format!("(set {} {})", k, v),
+        Op::Idx(k) => format!("(idx {})", k),
+        Op::Get(k) => format!("(get {})", k),
+        Op::Len => "(len)".into(),
+    }
+}
+
+fn dnm_run<K>(out: &mut Out, r: &mut Rng, sample: bool)
+where
+    K: From<usize> + Copy + Debug + PartialEq,
+    usize: From<K>,
+{
+    let vs: Vec<u32> = (0..r.below(5)).map(|_| r.below(50) as u32).collect();
+    let nops = r.below(9);
+    let mut m: DenseNatMap<K, u32> = build(&vs, r.below(BUILDS));
+    let mut ops = Vec::new();
+    let mut obs: Vec<String> = Vec::new();
+    let mut panicked = false;
+    let mut cur_len = vs.len();
+    for _ in 0..nops {
+        // keys mostly valid for the current length; sometimes beyond
+        let k_valid = if cur_len > 0 { r.below(cur_len) } else { 0 };
+        let k_any = r.below(cur_len + 3);
+        let v = r.below(50) as u32;
+        let op = match r.below(10) {
+            0 | 1 => Op::Ins(cur_len, v),
+            2 => Op::Ins(if r.chance(4, 5) { k_valid } else { k_any }, v),
+            3 | 4 => Op::Set(if r.chance(5, 6) { k_valid } else { k_any }, v),
+            5 | 6 => Op::Idx(if r.chance(5, 6) { k_valid } else { k_any }),
+            7 | 8 => Op::Get(k_any),
+            _ => Op::Len,
+        };
+        ops.push(op.clone());
+        if panicked {
+            continue;
+        }
+        let res = catch_unwind(AssertUnwindSafe(|| match &op {
+            Op::Ins(k, v) => format!("(prev {})", opt_u32(&m.insert(K::from(*k), *v))),
+            Op::Set(k, v) => {
+                m[K::from(*k)] = *v;
+                "unit".to_string()
+            }
+            Op::Idx(k) => m[K::from(*k)].to_string(),
+            Op::Get(k) => opt_u32(&m.get(K::from(*k)).copied()),
+            Op::Len => format!("(len {})", m.len()),
+        }));
+        match res {
+            Ok(s) => {
+                obs.push(s);
+                cur_len = m.len();
+                out.stat(match op {
+                    Op::Ins(..) => "run-ins-ok",
+                    Op::Set(..) => "run-set-ok",
+                    Op::Idx(..) => "run-idx-ok",
+                    Op::Get(..) => "run-get",
+                    Op::Len => "run-len",
+                });
+            }
+            Err(_) => {
+                panicked = true;
+                out.stat(match op {
+                    Op::Ins(..) => "run-ins-panic",
+                    Op::Set(..) => "run-set-panic",
+                    _ => "run-idx-panic",
+                });
+            }
+        }
+    }
+    let fin = if panicked { "panic".to_string() } else { sx::nums(m.values()) };
+    let req = format!("dnx-run {} {}", sx::nums(&vs), sx::list(ops.iter().map(op_s)));
+    out.m(&req, &format!("({}) {}", obs.join(" "), fin));
+    if sample {
+        out.sample(&format!("{} => ({}) {}", req, obs.join(" "), fin));
+    }
+    out.distinct(&(11u8, vs, ops.iter().map(op_s).collect::<Vec<_>>()));
+}
+
+fn dnm_set<K>(out: &mut Out, r: &mut Rng)
+where
+    K: From<usize> + Copy + Debug + PartialEq,
+    usize: From<K>,
+{
+    let vs: Vec<u32> = (0..r.below(7)).map(|_| r.below(50) as u32).collect();
+    let n = vs.len();
+    let k = if n > 0 && r.chance(3, 4) { r.below(n) } else { r.below(n + 3) };
+    let v = 50 + r.below(50) as u32;
+    let mut m: DenseNatMap<K, u32> = build(&vs, r.below(BUILDS));
+    let before = gets_of(&m, n + 3);
+    let res = catch_unwind(AssertUnwindSafe(|| {
+        *(&mut m[K::from(k)]) = v;
+        // read back through Index right away
+        m[K::from(k)]
+    }));
+    let after = match res {
+        Ok(back) => {
+            if back != v {
+                out.v("dnm-index-mut", &format!("m={} m[{}]={} then m[{}] reads {}", sx::nums(&vs), k, v, k, back));
+            }
+            if m.len() != n {
+                out.v("dnm-index-mut-len", &format!("m={} m[{}]={} changed len to {}", sx::nums(&vs), k, v, m.len()));
+            }
+            out.stat("set-ok");
+            opts(&gets_of(&m, n + 3))
+        }
+        Err(_) => {
+            out.stat("set-panic");
+            "panic".to_string()
+        }
+    };
+    out.o(&format!("o-dnx-set {} {} {} {}", opts(&before), k, v, after));
+    out.distinct(&(12u8, vs, k));
+}
+
+fn section_dnm(out: &mut Out, r: &mut Rng, th: bool) {
+    // Default / new: empty, equal
+    let d: DenseNatMap<Id, u32> = DenseNatMap::default();
+    out.m("dnx-default", &format!("{} {}", d.len(), sx::nums(d.values())));
+    if d != DenseNatMap::new() || d.len() != 0 || d.get(Id::from(0)).is_some() || d.iter().next().is_some() {
+        out.v("dnm-default", &format!("default() is not the empty map: {:?}", d));
+    }
+    let n = if th { 30_000 } else { 3_000 };
+    for c in 0..n {
+        let len = if r.chance(1, 12) { 0 } else { r.below(8) };
+        let vs: Vec<u32> = (0..len).map(|_| r.below(50) as u32).collect();
+        let how = r.below(BUILDS);
+        if c % 2 == 0 {
+            dnm_view::<Id>(out, &vs, how, "id");
+        } else {
+            dnm_view::<Slot>(out, &vs, how, "slot");
+        }
+        let fv: DenseNatMap<Id, u32> = DenseNatMap::from(vs.clone());
+        out.m(&format!("dnx-from-vec {}", sx::nums(&vs)), &format!("{} {}", fv.len(), sx::nums(fv.values())));
+        if c % 2 == 0 {
+            dnm_run::<Id>(out, r, c < 2);
+            dnm_set::<Slot>(out, r);
+        } else {
+            dnm_run::<Slot>(out, r, false);
+            dnm_set::<Id>(out, r);
+        }
+    }
+}
+
+// ------------------------------------------------------------------------------------------------
+// B. plans
+// ------------------------------------------------------------------------------------------------
+type IdPlan = RewritePlan<Id, DenseNatMap<Id, Id>>;
+fn plan_list(p: &IdPlan) -> Vec<usize> {
+    p.get_state().values().map(|id| usize::from(*id)).collect()
+}
+fn lookup(x: &Id, s: &DenseNatMap<Id, Id>) -> Id {
+    *s.get(*x).unwrap()
+}
+
+/// reindex a collection of plain numbers / of ids under `plan`; model + oracle lines
+fn reindex_case(out: &mut Out, r: &mut Rng, plan: &IdPlan, tag: &str) {
+    let pl = plan_list(plan);
+    let plen = pl.len();
+    let xlen = match r.below(8) {
+        0 => r.below(plen + 1),
+        1 => plen + 1 + r.below(2),
+        _ => plen,
+    };
+    let spl = sx::nums(&pl);
+    if r.chance(1, 2) {
+        let xs: Vec<u32> = (0..xlen).map(|_| r.below(50) as u32).collect();
+        let resp = if r.chance(1, 3) {
+            let dq: VecDeque<u32> = xs.iter().cloned().collect();
+            match catch_unwind(AssertUnwindSafe(|| plan.reindex(&dq))) {
+                Ok(ys) => sx::nums(ys.iter()),
+                Err(_) => "panic".into(),
+            }
+        } else {
+            match catch_unwind(AssertUnwindSafe(|| plan.reindex(&xs))) {
+                Ok(ys) => sx::nums(ys.iter()),
+                Err(_) => "panic".into(),
+            }
+        };
+        out.stat(&format!("reindex-{}-n-{}", tag, if resp == "panic" { "panic" } else { "ok" }));
+        out.m(&format!("plan-reindex {} {} n", spl, sx::nums(&xs)), &resp);
+        out.o(&format!("o-plan-reindex {} {} n {}", spl, sx::nums(&xs), resp));
+        out.distinct(&(21u8, pl.clone(), xs));
+    } else {
+        let xs: Vec<usize> = (0..xlen).map(|_| { let extra = if r.chance(1, 10) { 2 } else { 0 }; r.below(plen.max(1) + extra) }).collect();
+        let ids: Vec<Id> = xs.iter().map(|x| Id::from(*x)).collect();
+        let resp = match catch_unwind(AssertUnwindSafe(|| plan.reindex(&ids))) {
+            Ok(ys) => sx::nums(ys.iter().map(|id| usize::from(*id))),
+            Err(_) => "panic".into(),
+        };
+        out.stat(&format!("reindex-{}-id-{}", tag, if resp == "panic" { "panic" } else { "ok" }));
+        out.m(&format!("plan-reindex {} {} id", spl, sx::nums(&xs)), &resp);
+        out.o(&format!("o-plan-reindex {} {} id {}", spl, sx::nums(&xs), resp));
+        out.distinct(&(22u8, pl.clone(), xs));
+    }
+}
+
+fn section_plans(out: &mut Out, r: &mut Rng, th: bool) {
+    let n = if th { 30_000 } else { 3_000 };
+    for c in 0..n {
+        // ---- From<DenseNatMap<R, V>> / From<&DenseNatMap<R, V>>
+        let plen = if r.chance(1, 15) { 0 } else { r.below(9) };
+        let nv = 1 + r.below(6);
+        let vals: Vec<u32> = (0..plen).map(|_| r.below(nv) as u32).collect();
+        let dm: DenseNatMap<Id, u32> = build(&vals, r.below(BUILDS));
+        let p_ref: IdPlan = RewritePlan::from(&dm);
+        let p_own: IdPlan = RewritePlan::from(dm.clone());
+        let p_sort: IdPlan = RewritePlan::from_values_to_sort(&vals);
+        let pl = plan_list(&p_own);
+        let svals = sx::nums(&vals);
+        if plan_list(&p_ref) != pl || plan_list(&p_sort) != pl {
+            out.v(
+                "plan-from",
+                &format!("values {}: from(owned)={:?} from(&)={:?} from_values_to_sort={:?}", svals, pl, plan_list(&p_ref), plan_list(&p_sort)),
+            );
+        }
+        out.m(&format!("plan-from-dnm {}", svals), &sx::nums(&pl));
+        // the plan built from the plan's own state
+        let again: IdPlan = if r.chance(1, 2) { RewritePlan::from(p_own.get_state()) } else { RewritePlan::from(p_own.get_state().clone()) };
+        let rws: Vec<Option<usize>> = (0..plen + 2)
+            .map(|k| catch_unwind(AssertUnwindSafe(|| usize::from(p_own.rewrite(&Id::from(k))))).ok())
+            .collect();
+        out.o(&format!("o-plan-from-dnm {} {} {} {}", svals, sx::nums(&pl), sx::nums(plan_list(&again)), sx::list(rws.iter().map(idx_s))));
+        let k = r.below(plen + 2);
+        out.m(&format!("plan-rewrite {} {}", sx::nums(&pl), k), &idx_s(&rws[k]));
+        out.stat(&format!("plan-from-len-{}", plen));
+        if pl.iter().enumerate().all(|(i, p)| i == *p) { out.stat("plan-identity"); } else { out.stat("plan-nontrivial"); }
+        out.distinct(&(20u8, vals.clone()));
+        if c < 2 {
+            out.sample(&format!("plan from dense map {} = {:?}; Debug: {:?}", svals, pl, p_own));
+        }
+        reindex_case(out, r, &p_ref, "from");
+
+        // ---- Debug: exactly `RewritePlan { S: <Debug of the state>, .. }`
+        let dbg = format!("{:?}", p_own);
+        let want = format!("RewritePlan {{ S: {:?}, .. }}", p_own.get_state());
+        if dbg != want {
+            out.v("plan-debug", &format!("Debug gives `{}`, documented pieces give `{}`", dbg, want));
+        }
+
+        // ---- RewritePlan::new with a DenseNatMap state of its own choosing (any list, not only permutations)
+        let slen = r.below(7);
+        let perm = r.chance(1, 2);
+        let mut st: Vec<usize> = if perm { (0..slen).collect() } else { (0..slen).map(|_| r.below(slen.max(1))).collect() };
+        if perm { r.shuffle(&mut st); }
+        let state: DenseNatMap<Id, Id> = st.iter().map(|x| Id::from(*x)).collect::<Vec<Id>>().into();
+        let p_new: IdPlan = RewritePlan::new(state.clone(), lookup);
+        if p_new.get_state() != &state {
+            out.v("plan-new-state", &format!("new({:?}, f).get_state() = {:?}", state, p_new.get_state()));
+        }
+        let k = r.below(slen + 2);
+        let rw = catch_unwind(AssertUnwindSafe(|| usize::from(p_new.rewrite(&Id::from(k))))).ok();
+        out.m(&format!("plan-rewrite {} {}", sx::nums(&st), k), &idx_s(&rw));
+        out.stat(if perm { "plan-new-perm-state" } else { "plan-new-arbitrary-state" });
+        reindex_case(out, r, &p_new, if perm { "new-perm" } else { "new-any" });
+
+        // ---- RewritePlan::new with another state type: rewrite(x) = f(x, s), get_state() = s
+        let s2: Vec<u32> = (0..r.below(5)).map(|_| r.below(100) as u32).collect();
+        let fs: [fn(&u32, &Vec<u32>) -> u32; 3] = [
+            |x, s| s.get(*x as usize).copied().unwrap_or(*x),
+            |x, s| x.wrapping_add(s.len() as u32),
+            |x, s| s.iter().fold(*x, |a, b| a ^ b),
+        ];
+        let fi = r.below(3);
+        let p2: RewritePlan<u32, Vec<u32>> = RewritePlan::new(s2.clone(), fs[fi]);
+        let x = r.below(8) as u32;
+        if p2.rewrite(&x) != fs[fi](&x, &s2) || p2.get_state() != &s2 {
+            out.v("plan-new", &format!("new({:?}, f{}).rewrite({}) = {} but f gives {}", s2, fi, x, p2.rewrite(&x), fs[fi](&x, &s2)));
+        }
+        let want = format!("RewritePlan {{ S: {:?}, .. }}", s2);
+        let wantp = format!("RewritePlan {{\n    S: {},\n    ..\n}}", format!("{:#?}", s2).replace('\n', "\n    "));
+        if format!("{:?}", p2) != want || format!("{:#?}", p2) != wantp {
+            out.v("plan-debug", &format!("Debug `{:?}` / `{:#?}` vs `{}` / `{}`", p2, p2, want, wantp));
+        }
+        out.stat(&format!("plan-new-f{}", fi));
+    }
+}
+
+// ------------------------------------------------------------------------------------------------
+// C. HashableHashSet / HashableHashMap
+// ------------------------------------------------------------------------------------------------
+fn dkey<T: Hash>(t: &T) -> u64 {
+    let mut s = DefaultHasher::new();
+    t.hash(&mut s);
+    s.finish()
+}
+
+trait El: Hash + Eq + Ord + Clone + Debug + Serialize + DeserializeOwned + 'static {
+    fn gen(r: &mut Rng) -> Self;
+    fn name() -> &'static str;
+    /// for integer-like types: the number serde_json prints
+    fn as_nat(&self) -> Option<u64>;
+    /// the text of this value as a JSON object key
+    fn key_text(&self) -> String;
+}
+impl El for u8 {
+    fn gen(r: &mut Rng) -> u8 {
+        if r.chance(1, 8) { r.below(256) as u8 } else { r.below(10) as u8 }
+    }
+    fn name() -> &'static str { "u8" }
+    fn as_nat(&self) -> Option<u64> { Some(*self as u64) }
+    fn key_text(&self) -> String { self.to_string() }
+}
+impl El for u32 {
+    fn gen(r: &mut Rng) -> u32 {
+        if r.chance(1, 8) { r.next() as u32 } else { r.below(6) as u32 }
+    }
+    fn name() -> &'static str { "u32" }
+    fn as_nat(&self) -> Option<u64> { Some(*self as u64) }
+    fn key_text(&self) -> String { self.to_string() }
+}
+impl El for Id {
+    fn gen(r: &mut Rng) -> Id {
+        Id::from(if r.chance(1, 10) { r.below(1 << 20) } else { r.below(8) })
+    }
+    fn name() -> &'static str { "id" }
+    fn as_nat(&self) -> Option<u64> { Some(usize::from(*self) as u64) }
+    fn key_text(&self) -> String { usize::from(*self).to_string() }
+}
+impl El for String {
+    fn gen(r: &mut Rng) -> String {
+        const WORDS: [&str; 8] = ["", "a", "b", "ab", "ba", "key", "k\"q", "back\\slash"];
+        if r.chance(3, 4) {
+            WORDS[r.below(WORDS.len())].to_string()
+        } else {
+            const CH: [char; 10] = ['a', 'b', ' ', '"', '\\', '\n', 'é', '\u{1F600}', '0', '/'];
+            (0..r.below(5)).map(|_| CH[r.below(CH.len())]).collect()
+        }
+    }
+    fn name() -> &'static str { "string" }
+    fn as_nat(&self) -> Option<u64> { None }
+    fn key_text(&self) -> String { self.clone() }
+}
+
+const CAPS: [usize; 6] = [0, 1, 3, 16, 100, 1000];
+
+/// the same set built another way (insertion order, capacity, constructor, insert-then-remove)
+fn build_set<T: El>(r: &mut Rng, xs: &[T], how: usize) -> HashableHashSet<T> {
+    let mut order: Vec<T> = xs.to_vec();
+    match how {
+        0 => {
+            let mut s = HashableHashSet::new();
+            for x in order { s.insert(x); }
+            s
+        }
+        1 => {
+            r.shuffle(&mut order);
+            let cap = CAPS[r.below(CAPS.len())];
+            let mut s = HashableHashSet::with_capacity(cap);
+            if s.capacity() < cap || !s.is_empty() {
+                panic!("with_capacity({}) gives capacity {} len {}", cap, s.capacity(), s.len());
+            }
+            for x in order { s.insert(x); }
+            s
+        }
+        2 => {
+            order.reverse();
+            let mut s: HashableHashSet<T> = Default::default();
+            let extra: Vec<T> = (0..r.below(4)).map(|_| T::gen(r)).filter(|e| !xs.contains(e)).collect();
+            for e in &extra { s.insert(e.clone()); }
+            for x in order { s.insert(x); }
+            for e in &extra { s.remove(e); }
+            s
+        }
+        _ => {
+            r.shuffle(&mut order);
+            order.into_iter().collect()
+        }
+    }
+}
+fn build_map<K: El, V: El>(r: &mut Rng, ps: &[(K, V)], how: usize) -> HashableHashMap<K, V> {
+    // `ps` has distinct keys
+    let mut order: Vec<(K, V)> = ps.to_vec();
+    match how {
+        0 => {
+            let mut m = HashableHashMap::new();
+            for (k, v) in order { m.insert(k, v); }
+            m
+        }
+        1 => {
+            r.shuffle(&mut order);
+            let cap = CAPS[r.below(CAPS.len())];
+            let mut m = HashableHashMap::with_capacity(cap);
+            if m.capacity() < cap || !m.is_empty() {
+                panic!("with_capacity({}) gives capacity {} len {}", cap, m.capacity(), m.len());
+            }
+            for (k, v) in order { m.insert(k, v); }
+            m
+        }
+        2 => {
+            order.reverse();
+            let mut m: HashableHashMap<K, V> = Default::default();
+            // overwritten values and removed keys leave no trace
+            for (k, _) in ps.iter() { if r.chance(1, 2) { m.insert(k.clone(), V::gen(r)); } }
+            let extra: Vec<K> = (0..r.below(3)).map(|_| K::gen(r)).filter(|e| !ps.iter().any(|p| &p.0 == e)).collect();
+            for e in &extra { m.insert(e.clone(), V::gen(r)); }
+            for (k, v) in order { m.insert(k, v); }
+            for e in &extra { m.remove(e); }
+            m
+        }
+        _ => {
+            r.shuffle(&mut order);
+            order.into_iter().collect()
+        }
+    }
+}
+
+fn dedup<T: El>(xs: Vec<T>) -> Vec<T> {
+    let mut o: Vec<T> = Vec::new();
+    for x in xs { if !o.contains(&x) { o.push(x); } }
+    o
+}
+fn gen_elems<T: El>(r: &mut Rng) -> Vec<T> {
+    let n = if r.chance(1, 10) { 0 } else { r.below(7) };
+    dedup((0..n).map(|_| T::gen(r)).collect())
+}
+/// a list related to `xs`: same contents in another order, one element more / fewer / replaced, or fresh
+fn near_elems<T: El>(r: &mut Rng, xs: &[T]) -> Vec<T> {
+    let mut b = xs.to_vec();
+    match r.below(6) {
+        0 => { r.shuffle(&mut b); }
+        1 => { b.push(T::gen(r)); }
+        2 => { if !b.is_empty() { let i = r.below(b.len()); b.remove(i); } }
+        3 => { if !b.is_empty() { let i = r.below(b.len()); b[i] = T::gen(r); } }
+        4 => { b.reverse(); }
+        _ => { return gen_elems(r); }
+    }
+    dedup(b)
+}
+fn gen_pairs<K: El, V: El>(r: &mut Rng) -> Vec<(K, V)> {
+    gen_elems::<K>(r).into_iter().map(|k| (k, V::gen(r))).collect()
+}
+fn near_pairs<K: El, V: El>(r: &mut Rng, ps: &[(K, V)]) -> Vec<(K, V)> {
+    let mut b = ps.to_vec();
+    match r.below(7) {
+        0 => { r.shuffle(&mut b); }
+        1 => { b.push((K::gen(r), V::gen(r))); }
+        2 => { if !b.is_empty() { let i = r.below(b.len()); b.remove(i); } }
+        3 => { if !b.is_empty() { let i = r.below(b.len()); b[i].1 = V::gen(r); } }
+        4 => { if !b.is_empty() { let i = r.below(b.len()); b[i].0 = K::gen(r); } }
+        5 => { b.reverse(); }
+        _ => { return gen_pairs(r); }
+    }
+    let mut o: Vec<(K, V)> = Vec::new();
+    for p in b { if !o.iter().any(|q| q.0 == p.0) { o.push(p); } }
+    o
+}
+
+/// pair / triple lines common to sets and maps: `ha`, `hb` = inner stable hashes in iteration order
+#[allow(clippy::too_many_arguments)]
+fn order_lines<C: Ord + Hash + Debug>(out: &mut Out, tag: &str, a: &C, b: &C, c: &C, ha: &[u64], hb: &[u64], sample: bool) {
+    let (ka, kb) = (dkey(a), dkey(b));
+    let cab = ord(Some(a.cmp(b)));
+    let cba = ord(Some(b.cmp(a)));
+    let pab = ord(a.partial_cmp(b));
+    let pba = ord(b.partial_cmp(a));
+    let eab = a == b;
+    out.m(&format!("hh-key {}", sx::nums(ha)), &ka.to_string());
+    out.m(&format!("hh-cmp {} {}", sx::nums(ha), sx::nums(hb)), &format!("{} {}", cab, pab));
+    out.o(&format!("o-hh-pair {} {} {} {} {} {} {}", ka, kb, cab, cba, pab, pba, sx::b(eab)));
+    out.o(&format!("o-hh-trans {} {} {}", cab, ord(Some(b.cmp(c))), ord(Some(a.cmp(c)))));
+    // the comparison operators derived from partial_cmp agree with cmp
+    if (a < b) != (cab == "lt") || (a <= b) != (cab != "gt") || (a > b) != (cab == "gt") || (a >= b) != (cab != "lt") {
+        out.v("hh-operators", &format!("{}: {:?} vs {:?}: operators disagree with cmp={}", tag, a, b, cab));
+    }
+    if a.cmp(a) != Ordering::Equal {
+        out.v("hh-refl", &format!("{}: cmp({:?}, itself) is not Equal", tag, a));
+    }
+    out.stat(&format!("{}-cmp-{}", tag, cab));
+    out.stat(&format!("{}-{}", tag, if eab { "pair-equal" } else { "pair-different" }));
+    if !eab && cab == "eq" {
+        // reported, not a failure: two different collections with the same 64-bit DefaultHasher hash
+        out.stat("genuine-64-bit-collision");
+        out.sample(&format!("64-bit collision: {:?} and {:?} both hash to {}", a, b, ka));
+    }
+    if sample {
+        out.sample(&format!("{}: a={:?} b={:?} cmp={} keys {} {}", tag, a, b, cab, ka, kb));
+    }
+}
+
+fn set_cases<T: El>(out: &mut Out, r: &mut Rng, n: usize) {
+    let tag = format!("set-{}", T::name());
+    let mut pool: Vec<HashableHashSet<T>> = Vec::new();
+    for c in 0..n {
+        let xa: Vec<T> = gen_elems(r);
+        let xb: Vec<T> = if r.chance(3, 4) { near_elems(r, &xa) } else { gen_elems(r) };
+        let xc: Vec<T> = if r.chance(3, 4) { near_elems(r, &xb) } else { gen_elems(r) };
+        // every construction of the same contents: equal, cmp Equal, same key
+        let how_a = r.below(4);
+        let a = build_set(r, &xa, how_a);
+        for how in 0..4 {
+            if how == how_a { continue; }
+            let a2 = build_set(r, &xa, how);
+            if a2 != a || a2.cmp(&a) != Ordering::Equal || a.partial_cmp(&a2) != Some(Ordering::Equal) || dkey(&a2) != dkey(&a) || a2.len() != xa.len() {
+                out.v("hh-construction", &format!("{}: {:?} built as {} and as {}: eq={} cmp={:?} keys {} {}", tag, xa, how_a, how, a2 == a, a2.cmp(&a), dkey(&a2), dkey(&a)));
+            }
+            out.stat(&format!("{}-variant-{}", tag, how));
+        }
+        let (how_b, how_c) = (r.below(4), r.below(4));
+        let b = build_set(r, &xb, how_b);
+        let cc = build_set(r, &xc, how_c);
+        let ha: Vec<u64> = a.iter().map(stateright::verif::stable_hash).collect();
+        let hb: Vec<u64> = b.iter().map(stateright::verif::stable_hash).collect();
+        order_lines(out, &tag, &a, &b, &cc, &ha, &hb, c < 1);
+        out.stat(&format!("{}-len-{}", tag, a.len()));
+        let mut sa = xa.clone(); sa.sort();
+        let mut sb = xb.clone(); sb.sort();
+        out.distinct(&(30u8, T::name(), sa, sb));
+
+        // `for x in &set`: every element exactly once
+        let mut seen: Vec<T> = Vec::new();
+        for x in &a { seen.push(x.clone()); }
+        let mut s2 = seen.clone(); s2.sort();
+        let mut want = xa.clone(); want.sort();
+        if s2 != want {
+            out.v("hh-iter", &format!("{}: `for x in &set` yields {:?} for the set {:?}", tag, seen, xa));
+        }
+        // new / default are empty
+        if c == 0 {
+            let e: HashableHashSet<T> = HashableHashSet::new();
+            let d: HashableHashSet<T> = Default::default();
+            if !e.is_empty() || !d.is_empty() || e != d || e.cmp(&d) != Ordering::Equal || e.capacity() != 0 {
+                out.v("hh-new", &format!("{}: new()/default() not the empty set", tag));
+            }
+        }
+
+        // serde: the JSON is the array of the elements in iteration order; round trip
+        let text = serde_json::to_string(&a).unwrap();
+        let want_text = serde_json::to_string(&seen).unwrap();
+        if text != want_text {
+            out.v("hh-json", &format!("{}: JSON `{}` is not the array of the elements in iteration order `{}`", tag, text, want_text));
+        }
+        match serde_json::from_str::<serde_json::Value>(&text) {
+            Ok(serde_json::Value::Array(items)) => {
+                let each_once = xa.iter().all(|x| items.iter().filter(|i| **i == serde_json::to_value(x).unwrap()).count() == 1);
+                if items.len() != xa.len() || !each_once {
+                    out.v("hh-json-array", &format!("{}: JSON `{}` does not hold each element of {:?} once", tag, text, xa));
+                }
+            }
+            other => out.v("hh-json-array", &format!("{}: JSON `{}` is not an array: {:?}", tag, text, other)),
+        }
+        match serde_json::from_str::<HashableHashSet<T>>(&text) {
+            Ok(back) => {
+                if back != a || back.cmp(&a) != Ordering::Equal {
+                    out.v("hh-json-roundtrip", &format!("{}: from_str(`{}`) = {:?} != {:?}", tag, text, back, a));
+                }
+            }
+            Err(e) => out.v("hh-json-roundtrip", &format!("{}: from_str(`{}`) fails: {}", tag, text, e)),
+        }
+        // reading the elements in another order (and one of them twice) gives the same set
+        let mut other = seen.clone();
+        r.shuffle(&mut other);
+        if let Some(x) = other.first().cloned() { other.push(x); }
+        let text2 = serde_json::to_string(&other).unwrap();
+        match serde_json::from_str::<HashableHashSet<T>>(&text2) {
+            Ok(back) if back == a => {}
+            x => out.v("hh-json-order", &format!("{}: from_str(`{}`) = {:?} != {:?}", tag, text2, x.ok(), a)),
+        }
+        if let Some(ns) = seen.iter().map(|x| x.as_nat()).collect::<Option<Vec<u64>>>() {
+            out.m(&format!("json-set {}", sx::nums(&ns)), &text);
+        }
+        out.stat(&format!("{}-json", tag));
+        if pool.len() < 40 { pool.push(a); } else { let i = r.below(40); pool[i] = a; }
+
+        // sorting with the hash order: non-decreasing keys; a BTreeSet keeps one per key
+        if c % 50 == 49 {
+            let mut v = pool.clone();
+            v.sort();
+            if !v.windows(2).all(|w| dkey(&w[0]) <= dkey(&w[1])) {
+                out.v("hh-sort", &format!("{}: sort() by Ord does not order by the hash", tag));
+            }
+            let bs: BTreeSet<HashableHashSet<T>> = pool.iter().cloned().collect();
+            let keys: BTreeSet<u64> = pool.iter().map(dkey).collect();
+            if bs.len() != keys.len() {
+                out.v("hh-btreeset", &format!("{}: BTreeSet of {} sets keeps {} for {} distinct hashes", tag, pool.len(), bs.len(), keys.len()));
+            }
+            out.stat(&format!("{}-sorted-pools", tag));
+        }
+    }
+}
+
+fn map_cases<K: El, V: El>(out: &mut Out, r: &mut Rng, n: usize) {
+    let tag = format!("map-{}-{}", K::name(), V::name());
+    for c in 0..n {
+        let xa: Vec<(K, V)> = gen_pairs(r);
+        let xb: Vec<(K, V)> = if r.chance(3, 4) { near_pairs(r, &xa) } else { gen_pairs(r) };
+        let xc: Vec<(K, V)> = if r.chance(3, 4) { near_pairs(r, &xb) } else { gen_pairs(r) };
+        let how_a = r.below(4);
+        let a = build_map(r, &xa, how_a);
+        for how in 0..4 {
+            if how == how_a { continue; }
+            let a2 = build_map(r, &xa, how);
+            if a2 != a || a2.cmp(&a) != Ordering::Equal || a.partial_cmp(&a2) != Some(Ordering::Equal) || dkey(&a2) != dkey(&a) || a2.len() != xa.len() {
+                out.v("hh-construction", &format!("{}: {:?} built as {} and as {}: eq={} cmp={:?} keys {} {}", tag, xa, how_a, how, a2 == a, a2.cmp(&a), dkey(&a2), dkey(&a)));
+            }
+            out.stat(&format!("{}-variant-{}", tag, how));
+        }
+        let (how_b, how_c) = (r.below(4), r.below(4));
+        let b = build_map(r, &xb, how_b);
+        let cc = build_map(r, &xc, how_c);
+        let ha: Vec<u64> = a.iter().map(|(k, v)| stateright::verif::stable_hash(&(k, v))).collect();
+        let hb: Vec<u64> = b.iter().map(|(k, v)| stateright::verif::stable_hash(&(k, v))).collect();
+        order_lines(out, &tag, &a, &b, &cc, &ha, &hb, c < 1);
+        out.stat(&format!("{}-len-{}", tag, a.len()));
+        let mut sa = xa.clone(); sa.sort();
+        let mut sb = xb.clone(); sb.sort();
+        out.distinct(&(31u8, K::name(), V::name(), sa, sb));
+
+        if c == 0 {
+            let e: HashableHashMap<K, V> = HashableHashMap::new();
+            let d: HashableHashMap<K, V> = Default::default();
+            if !e.is_empty() || !d.is_empty() || e != d || e.cmp(&d) != Ordering::Equal || e.capacity() != 0 {
+                out.v("hh-new", &format!("{}: new()/default() not the empty map", tag));
+            }
+        }
+
+        // serde (`self.0.serialize`: HashMap → serialize_map): a JSON object with one member per entry, in iteration
+        // order, the key printed as a string; reading it back as a HashMap gives the same entries
+        // (HashableHashMap itself has no Deserialize impl)
+        let text = serde_json::to_string(&a).unwrap();
+        let members: Vec<String> = a
+            .iter()
+            .map(|(k, v)| format!("{}:{}", serde_json::to_string(&k.key_text()).unwrap(), serde_json::to_string(v).unwrap()))
+            .collect();
+        let want_text = format!("{{{}}}", members.join(","));
+        if text != want_text {
+            out.v("hh-json", &format!("{}: JSON `{}` is not the object of the entries in iteration order `{}`", tag, text, want_text));
+        }
+        match serde_json::from_str::<serde_json::Value>(&text) {
+            Ok(serde_json::Value::Object(o)) => {
+                let all = xa.iter().all(|(k, v)| o.get(&k.key_text()) == Some(&serde_json::to_value(v).unwrap()));
+                if o.len() != xa.len() || !all {
+                    out.v("hh-json-object", &format!("{}: JSON `{}` does not hold the entries {:?}", tag, text, xa));
+                }
+            }
+            other => out.v("hh-json-object", &format!("{}: JSON `{}` is not an object: {:?}", tag, text, other)),
+        }
+        match serde_json::from_str::<HashMap<K, V>>(&text) {
+            Ok(back) => {
+                if back.len() != a.len() || !a.iter().all(|(k, v)| back.get(k) == Some(v)) {
+                    out.v("hh-json-roundtrip", &format!("{}: from_str(`{}`) = {:?} != {:?}", tag, text, back, a));
+                }
+            }
+            Err(e) => out.v("hh-json-roundtrip", &format!("{}: from_str(`{}`) fails: {}", tag, text, e)),
+        }
+        let nat_pairs: Option<Vec<(u64, u64)>> = a.iter().map(|(k, v)| Some((k.as_nat()?, v.as_nat()?))).collect();
+        if let Some(ps) = nat_pairs {
+            out.m(&format!("json-map {}", sx::list(ps.iter().map(|(k, v)| format!("({} {})", k, v)))), &text);
+        }
+        out.stat(&format!("{}-json", tag));
+    }
+}
+
+fn section_hash(out: &mut Out, r: &mut Rng, th: bool) {
+    let n = if th { 12_000 } else { 1_200 };
+    set_cases::<u8>(out, r, n);
+    set_cases::<String>(out, r, n);
+    set_cases::<Id>(out, r, n);
+    map_cases::<u8, u8>(out, r, n);
+    map_cases::<String, u32>(out, r, n);
+    map_cases::<Id, u32>(out, r, n);
+    map_cases::<u8, String>(out, r, n / 2);
+}
+
+// ------------------------------------------------------------------------------------------------
+// D. defaults
+// ------------------------------------------------------------------------------------------------
+/// the clock's components as seen through its hash input (decoded), as in c20.rs
+fn hash_input(c: &VectorClock) -> String {
+    let toks = record(c);
+    match toks.as_slice() {
+        [Tok::Usize(0)] => "()".into(),
+        [Tok::Usize(n), Tok::Bytes(b)] if b.len() == 4 * n => sx::nums(b.chunks(4).map(|w| u32::from_le_bytes([w[0], w[1], w[2], w[3]]))),
+        _ => format!("unexpected-stream:{}", srh::rec::toks_sx(&toks)),
+    }
+}
+fn comps(c: &VectorClock) -> Vec<u32> {
+    let s = format!("{}", c);
+    let inner = s.trim_start_matches('<').trim_end_matches("...>");
+    inner.split(", ").filter(|x| !x.is_empty()).map(|x| x.parse().unwrap()).collect()
+}
+
+fn section_vclock(out: &mut Out, r: &mut Rng, th: bool) {
+    let e = VectorClock::new();
+    if e != VectorClock::default() || e != VectorClock::from(vec![]) || e != VectorClock::from(vec![0, 0]) || record(&e) != record(&VectorClock::default()) {
+        out.v("vc-new", "VectorClock::new() is not the default / empty / all-zero clock");
+    }
+    if format!("{:?}", e) != format!("{:?}", VectorClock::default()) {
+        out.v("vc-new-debug", "Debug of new() and default() differ");
+    }
+    out.m("vc-display ()", &format!("{}", VectorClock::new()));
+    out.m("vc-hash ()", &hash_input(&VectorClock::new()));
+    let n = if th { 3_000 } else { 300 };
+    for _ in 0..n {
+        let i = r.below(6);
+        let c = VectorClock::new().incremented(i);
+        out.m(&format!("vc-incr () {}", i), &sx::nums(comps(&c)));
+        let b: Vec<u32> = (0..r.below(5)).map(|_| if r.chance(1, 2) { 0 } else { r.below(4) as u32 }).collect();
+        let cb = VectorClock::from(b.clone());
+        let sb = sx::nums(&b);
+        out.m(&format!("vc-cmp () {}", sb), ord(VectorClock::new().partial_cmp(&cb)));
+        out.m(&format!("vc-eq () {}", sb), &sx::b(VectorClock::new() == cb));
+        out.m(&format!("vc-merge () {}", sb), &sx::nums(comps(&VectorClock::merge_max(&VectorClock::new(), &cb))));
+        // the empty clock is the least element and the unit of merge
+        if !matches!(VectorClock::new().partial_cmp(&cb), Some(Ordering::Less) | Some(Ordering::Equal)) || VectorClock::merge_max(&VectorClock::new(), &cb) != cb {
+            out.v("vc-new-least", &format!("new() is not below / not the merge unit of {:?}", b));
+        }
+        out.stat("vclock-new");
+        out.distinct(&(40u8, i, b));
+    }
+}
+
+fn section_timers(out: &mut Out, r: &mut Rng, th: bool) {
+    let n = if th { 5_000 } else { 500 };
+    for c in 0..n {
+        let mut d: Timers<u8> = Timers::default();
+        let mut w: Timers<u8> = Timers::new();
+        let mut model: BTreeSet<u8> = BTreeSet::new();
+        let mut script = Vec::new();
+        let check = |d: &Timers<u8>, w: &Timers<u8>, model: &BTreeSet<u8>, out: &mut Out, script: &Vec<String>| {
+            let di: Vec<u8> = d.iter().copied().collect();
+            let wi: Vec<u8> = w.iter().copied().collect();
+            let ds: BTreeSet<u8> = di.iter().copied().collect();
+            if d != w || di != wi || format!("{:?}", d) != format!("{:?}", w) || record(d) != record(w) || &ds != model || di.len() != model.len()
+                || serde_json::to_string(d).unwrap() != serde_json::to_string(w).unwrap()
+            {
+                out.v("timers-default", &format!("after {:?}: default() gives {:?} (iter {:?}), new() gives {:?} (iter {:?}), expected contents {:?}", script, d, di, w, wi, model));
+            }
+        };
+        check(&d, &w, &model, out, &script);
+        for _ in 0..r.below(8) {
+            let t = r.below(6) as u8;
+            match r.below(6) {
+                0..=2 => {
+                    let (a, b, m) = (d.set(t), w.set(t), model.insert(t));
+                    script.push(format!("set {}", t));
+                    if a != b || a != m { out.v("timers-set", &format!("{:?}: set results {} {} expected {}", script, a, b, m)); }
+                    out.stat("timers-set");
+                }
+                3 | 4 => {
+                    let (a, b, m) = (d.cancel(&t), w.cancel(&t), model.remove(&t));
+                    script.push(format!("cancel {}", t));
+                    if a != b || a != m { out.v("timers-cancel", &format!("{:?}: cancel results {} {} expected {}", script, a, b, m)); }
+                    out.stat("timers-cancel");
+                }
+                _ => {
+                    d.cancel_all(); w.cancel_all(); model.clear();
+                    script.push("cancel_all".into());
+                    out.stat("timers-cancel-all");
+                }
+            }
+            check(&d, &w, &model, out, &script);
+        }
+        if c < 1 { out.sample(&format!("timers script {:?} => {:?}", script, d)); }
+        out.distinct(&(41u8, script));
+    }
+}
+
+fn tester_defaults<O>(out: &mut Out, r: &mut Rng, n: usize)
+where
+    O: Wire + Default + Clone + Debug + PartialEq,
+    O::Op: Clone + Debug + PartialEq,
+    O::Ret: Clone + Debug + PartialEq,
+{
+    for c in 0..n {
+        let init = O::default();
+        let calls = gen_history::<O>(r, &init, 3, 6, 1, 3);
+        // linearizability
+        let mut d: LinearizabilityTester<usize, O> = Default::default();
+        let mut w: LinearizabilityTester<usize, O> = LinearizabilityTester::new(O::default());
+        let fresh = lin_summary(&d);
+        if d != w || fresh.2 != lin_summary(&w).2 || !fresh.0 || fresh.1 != Some(vec![]) || d.len() != 0 {
+            out.v("lin-default", &format!("{}: default() = {} ; new(default) = {}", O::kind(), fresh.2, lin_summary(&w).2));
+        }
+        let (rd, rw) = (drive::<O, _>(&mut d, &calls), drive::<O, _>(&mut w, &calls));
+        if rd != rw || d != w || lin_summary(&d).2 != lin_summary(&w).2 {
+            out.v("lin-default-run", &format!("{}: after {:?}: results {:?} vs {:?}; {} vs {}", O::kind(), calls, rd, rw, lin_summary(&d).2, lin_summary(&w).2));
+        }
+        out.stat(&format!("lin-default-{}-{}", O::kind(), if d.is_consistent() { "consistent" } else { "inconsistent" }));
+        // sequential consistency
+        let mut d: SequentialConsistencyTester<usize, O> = Default::default();
+        let mut w: SequentialConsistencyTester<usize, O> = SequentialConsistencyTester::new(O::default());
+        let fresh = sc_summary(&d);
+        if d != w || fresh.2 != sc_summary(&w).2 || !fresh.0 || fresh.1 != Some(vec![]) || d.len() != 0 {
+            out.v("sc-default", &format!("{}: default() = {} ; new(default) = {}", O::kind(), fresh.2, sc_summary(&w).2));
+        }
+        let (rd, rw) = (drive::<O, _>(&mut d, &calls), drive::<O, _>(&mut w, &calls));
+        if rd != rw || d != w || sc_summary(&d).2 != sc_summary(&w).2 {
+            out.v("sc-default-run", &format!("{}: after {:?}: results {:?} vs {:?}; {} vs {}", O::kind(), calls, rd, rw, sc_summary(&d).2, sc_summary(&w).2));
+        }
+        out.stat(&format!("sc-default-{}-{}", O::kind(), if d.is_consistent() { "consistent" } else { "inconsistent" }));
+        if c < 1 { out.sample(&format!("tester default {}: {:?} => {}", O::kind(), calls, sc_summary(&d).2)); }
+        out.distinct(&(42u8, O::kind(), format!("{:?}", calls)));
+    }
+}
+
+fn section_choices(out: &mut Out, r: &mut Rng, th: bool) {
+    let e: RandomChoices<u8> = RandomChoices::default();
+    if !e.map.is_empty() || format!("{:?}", e) != "RandomChoices { map: {} }" || serde_json::to_string(&e).unwrap() != "{\"map\":{}}" {
+        out.v("choices-default", &format!("RandomChoices::default() = {:?} / {}", e, serde_json::to_string(&e).unwrap()));
+    }
+    let n = if th { 5_000 } else { 500 };
+    for c in 0..n {
+        let mut a: RandomChoices<u8> = RandomChoices::default();
+        let mut model: BTreeMap<String, Vec<u8>> = BTreeMap::new();
+        let mut script: Vec<String> = Vec::new();
+        for _ in 0..r.below(8) {
+            let key = ["k", "x", "y", "zz"][r.below(4)].to_string();
+            if r.chance(2, 3) {
+                let ch: Vec<u8> = (0..r.below(4)).map(|_| r.below(5) as u8).collect();
+                a.insert(key.clone(), ch.clone());
+                model.insert(key.clone(), ch.clone());
+                script.push(format!("insert {} {:?}", key, ch));
+                out.stat("choices-insert");
+            } else {
+                let (x, y) = (a.remove(&key), model.remove(&key));
+                script.push(format!("remove {}", key));
+                if x != y { out.v("choices-remove", &format!("{:?}: remove gives {:?} expected {:?}", script, x, y)); }
+                out.stat("choices-remove");
+            }
+        }
+        let got: BTreeMap<String, Vec<u8>> = a.map.iter().map(|(k, v)| (k.clone(), v.clone())).collect();
+        if got != model || a.map.len() != model.len() {
+            out.v("choices-contents", &format!("{:?}: contents {:?} expected {:?}", script, got, model));
+        }
+        // the same contents in a map with another hasher / insertion order: equal hash stream (contents only)
+        let mut other: HashableHashMap<String, Vec<u8>> = HashableHashMap::new();
+        let mut es: Vec<(String, Vec<u8>)> = model.iter().map(|(k, v)| (k.clone(), v.clone())).collect();
+        r.shuffle(&mut es);
+        for (k, v) in es.iter().cloned() { other.insert(k, v); }
+        if record(&a.map) != record(&other) {
+            out.v("choices-hash", &format!("{:?}: hash stream differs from that of an equal map with another hasher", script));
+        }
+        // a second default() filled in another order: same contents; the iteration order is reported, not required
+        let mut b: RandomChoices<u8> = RandomChoices::default();
+        for (k, v) in es.iter().cloned() { b.insert(k, v); }
+        if a.map != b.map { out.v("choices-eq", &format!("{:?}: refilled default() differs: {:?} vs {:?}", script, a, b)); }
+        let (ia, ib): (Vec<&String>, Vec<&String>) = (a.map.keys().collect(), b.map.keys().collect());
+        out.stat(if ia == ib { "choices-same-iteration-order" } else { "choices-iteration-order-depends-on-history" });
+        if c < 1 { out.sample(&format!("choices script {:?} => {:?}", script, a)); }
+        out.distinct(&(43u8, script));
+    }
+}
+
 fn main() {
     quiet_panics();
     let mut out = Out::new();
+    let mut r = Rng::new(seed());
+    let th = thorough();
+    section_dnm(&mut out, &mut r, th);
+    section_plans(&mut out, &mut r, th);
+    section_hash(&mut out, &mut r, th);
+    section_vclock(&mut out, &mut r, th);
+    section_timers(&mut out, &mut r, th);
+    let n = if th { 3_000 } else { 300 };
+    tester_defaults::<Register<u8>>(&mut out, &mut r, n);
+    tester_defaults::<WORegister<u8>>(&mut out, &mut r, n);
+    tester_defaults::<Vec<u8>>(&mut out, &mut r, n);
+    section_choices(&mut out, &mut r, th);
     out.finish();
 }
